@@ -7,7 +7,6 @@ For one sample field object of every field kind of the model vocabulary it recor
 `create_serializer` answer TODAY:
 
   * `valid`        isinstance(f, serialization._valid_classes_for_trusted_deserialization)
-  * `setScalar`    isinstance(f, <the tuple in the Set branch of `_remap_input`>)   (read off the AST)
   * `serializable` isinstance(f, SerializableField)
   * `array` / `set` / `classRef` / `anyOf`   the classifier's structural tests
   * `nsb`          isinstance(f, (Number, String, Boolean))     (fast serialization: served by `_get_value`)
@@ -62,7 +61,7 @@ def samples():
     ]
 
 
-def set_branch_tuple():
+def set_branch_tuple():   # (kept for older trees; since d9ee4f9 the Set branch tests no tuple of classes)
     """the classes of `isinstance(field_def.items, (...))` in the Set branch of `_remap_input`, from the AST"""
     from typedpy.serialization import serialization as SER
     tree = ast.parse(inspect.getsource(SER._remap_input))
@@ -95,7 +94,6 @@ def rows():
         out.append({
             "kind": tag,
             "valid": isinstance(f, valid),
-            "setScalar": isinstance(f, set_tuple),
             "serializable": isinstance(f, SerializableField),
             "array": isinstance(f, T.Array),
             "set": isinstance(f, T.Set),
@@ -108,7 +106,7 @@ def rows():
     return out, names, (sb[1] if sb else [])
 
 
-COLS = ["valid", "setScalar", "serializable", "array", "set", "classRef", "anyOf", "nsb", "numOrStr"]
+COLS = ["valid", "serializable", "array", "set", "classRef", "anyOf", "nsb", "numOrStr"]
 
 
 def render(ns):
